@@ -300,7 +300,10 @@ GEN = {
     "C14": "the generator loop of segment_clip",
     "C19": "classification_encoding, multilabel_encoding and prediction_encoding (the encoder entering through its encode function and num_classes)",
     "C04": "the validators ClipEvaluation._check_clips_match / _check_matches, AnnotationProject._annotations_are_part_of_the_project and Clip._validate_times",
-    "C05": "the nine per-type functions of compute_geometric_features and its dispatch table",
+    "C05": "the nine per-type functions of compute_geometric_features and its dispatch table, the nine converters and the dispatch of geometry_to_shapely, and compute_bounds",
+    "C16": "get_dim_range and get_coord_index",
+    "C17": "crop_dim (with get_dim_range)",
+    "C20": "get_coord_index (the vertex-to-bin lookup of rasterize)",
     "C08": "iterate_over_valid_clips (which clips are evaluated, and with which annotation)",
     "C09": "iterate_over_valid_clips (which clips are evaluated, and with which annotation)",
 }
